@@ -14,7 +14,7 @@ use crate::case::{Case, Cfg, Engine, Mk, Sk};
 use crate::engine::{self, anch, guard, input, to_m, Searcher};
 use crate::gen::{self, CfgOpts, HayOpts, PatOpts, SearchOpts};
 use crate::model::{Occ, M};
-use crate::runner::{Ctx, PropDef, Tier};
+use crate::runner::{Ctx, PropDef, Tier, Violation};
 
 const PRODUCT_CAP: usize = 300_000;
 
@@ -360,6 +360,82 @@ fn c04_strategy(tier: Tier) -> BoxedStrategy<Case> {
     })
 }
 
+/// Deterministic structured lists through the same check (enumerated): the
+/// boundary sizes of the encodings that random generation only meets now and
+/// then - states carrying 255/256/257/300 matches (nested lists, both
+/// orders), nodes with 127/128/129/255/256 children aligned to the ends of
+/// the byte range, and failure chains of 255/256/300 links - each with byte
+/// classes on and off, for the three match kinds.
+fn c04_extra(_tier: Tier, _seed: u64, ctx: &mut Ctx) -> Result<bool, Violation> {
+    use crate::gen::PatList;
+    let mut lists: Vec<(String, PatList)> = Vec::new();
+    for n in [255u16, 256, 257, 300] {
+        for reverse in [false, true] {
+            lists.push((format!("deepnested:{}:{}", n, reverse), PatList::DeepNested { unit: vec![0], n, reverse }));
+        }
+    }
+    for n in [127u16, 128, 129, 255, 256] {
+        for align in [0u8, 1] {
+            lists.push((format!("fanout:{}:{}", n, align), PatList::Fanout { prefix: vec![1, 2, 3], n, start: gen::fanout_start(n, 0, align), tails: vec![1] }));
+        }
+    }
+    for k in [255u16, 256, 300] {
+        lists.push((format!("adversarial:2:{}", k), PatList::Adversarial { kind: 2, k, n: 3 }));
+    }
+    let alpha = gen::alphabet(gen::ALPHA_ABCX);
+    let tasks: Vec<(String, Vec<Vec<u8>>, Mk, bool)> = lists
+        .iter()
+        .flat_map(|(name, l)| {
+            let pats = gen::realize_patterns(l, &alpha);
+            [(Mk::Standard, true), (Mk::LeftmostFirst, false), (Mk::LeftmostLongest, true), (Mk::Standard, false)].into_iter().map(move |(mk, bc)| (name.clone(), pats.clone(), mk, bc))
+        })
+        .collect();
+    let next = std::sync::atomic::AtomicUsize::new(0);
+    let results: Vec<(Ctx, Option<Violation>)> = std::thread::scope(|sc| {
+        let hs: Vec<_> = (0..12)
+            .map(|_| {
+                sc.spawn(|| {
+                    let mut c = Ctx::default();
+                    loop {
+                        let t = next.fetch_add(1, std::sync::atomic::Ordering::Relaxed);
+                        if t >= tasks.len() {
+                            return (c, None);
+                        }
+                        let (name, pats, mk, bc) = &tasks[t];
+                        let mut hay = Vec::new();
+                        for p in pats.iter().rev().take(3) {
+                            hay.extend_from_slice(p);
+                            hay.push(b'x');
+                        }
+                        hay.truncate(700);
+                        let case = Case {
+                            prop: "C04".into(),
+                            sub: format!("scenario:structured:{}", name),
+                            cfg: Cfg { engine: Engine::TopAuto, mk: *mk, sk: Sk::Both, prefilter: t % 2 == 0, dense_depth: [0i64, 2, -1][t % 3], byte_classes: *bc, casei: false },
+                            patterns: pats.clone(),
+                            span: (0, hay.len()),
+                            haystack: hay,
+                            ..Case::default()
+                        };
+                        if let Err(reason) = crate::runner::run_check(c04_check, &case, &mut c) {
+                            return (c, Some(Violation { case, reason }));
+                        }
+                        c.enumerated += 1;
+                    }
+                })
+            })
+            .collect();
+        hs.into_iter().map(|h| h.join().expect("structured-list thread")).collect()
+    });
+    for (c, v) in results {
+        ctx.merge(c);
+        if let Some(v) = v {
+            return Err(v);
+        }
+    }
+    Ok(false)
+}
+
 pub const C04: PropDef = PropDef {
     id: "C04",
     rule: "per generated (pattern list, match kind, case-insensitivity, dense depth, byte classes, prefilter): \
@@ -367,6 +443,7 @@ pub const C04: PropDef = PropDef {
 from the start state of every supported anchoring over all 256 bytes until closure, comparing is_dead / is_match / the ordered match list at every product state and dead|match => special, plus patterns_len/pattern_len/match_kind/min/max metadata; \
 this decides equality for haystacks of every length for that pattern list (counters product_states / product_transitions). \
 (B) find/earliest/iter/overlapping steps/overlapping iter/replace_all_bytes/stream results on a generated haystack and span compared between top-level noncontiguous (pinned to the model) and all 7 engines x start kinds. \
+A deterministic set of 84 structured lists goes through the same check on every run (enumerated): nested lists giving states with 255/256/257/300 matches in both orders, nodes with 127/128/129/255/256 children aligned to the start or end of the byte range, failure chains of 255/256/300 links, x 3 match kinds x byte classes on/off. \
 Non-trivial = the trie has a state with >= 2 transitions and >= 12 product states were explored. Distinct = distinct case fingerprint.",
     assumptions: &[
         "the search loops read only start_state/next_state/is_special/is_dead/is_match/match_len/match_pattern/pattern_len/match_kind (+ prefilter, C05), so agreement on all reachable product states implies equal results",
@@ -376,7 +453,7 @@ Non-trivial = the trie has a state with >= 2 transitions and >= 12 product state
     cases_thorough: 200_000,
     strategy: c04_strategy,
     check: c04_check,
-    extra: None,
+    extra: Some(c04_extra),
     floors: &[
         ("trie:one-transition-state", 3_000),
         ("trie:sparse-4k-transitions", 600),
